@@ -139,6 +139,7 @@ def run(rep: Report, tier: str) -> None:
 			r2.violate(name, f.where, f'BlockParser.{name} tests {text_p}[i] against the requested brackets / the delimiter, but {why}: a bracket or delimiter inside a string literal is counted (`print("(")`, `f("a,b", c)`), so the fragment is cut inside the string', unparse(tests[0])[:80])
 	rule_angle(rep, bp, pairs)
 	rule_callers(rep, idx)
+	rule_nesting(rep, bp)
 
 
 def rule_angle(rep: Report, bp, pairs) -> None:
@@ -341,3 +342,54 @@ def rule_callers(rep: Report, idx: SourceIndex) -> None:
 		r.skip('parameter-default', (CPPVIEW, verdict[1].lineno), verdict[2])
 	else:
 		r.ok('parameter-default', (CPPVIEW, verdict[1].lineno))
+
+
+def rule_nesting(rep: Report, bp) -> None:
+	"""`no piece is unbalanced`: the entry tree of BlockParser records for every nested block the position one past its closer. `_parse_block` consumes the
+	closer (`index += 1; break`) and returns that position; `_parse` must resume exactly there — resuming one further loses a closer that directly
+	follows the block, the enclosing block then runs on to the next closer and every piece from the third level on carries a bracket too many
+	(`parse_bracket('x((a), (b, (c)))')` gave `(b, (c)))`). And the enumeration of the tree (`Entry.unders`) must reach every level."""
+	from vlib.linear import linear
+	from vlib.match import split_tuple_assigns
+	r = rep.rule('C18/nested-blocks-end-at-their-closer', 'BlockParser._parse resumes after a nested block at the position _parse_block returned (closer consumed exactly once); Entry.unders enumerates all levels', floor=2)
+	pb, ps = bp.method('_parse_block'), bp.method('_parse')
+	if pb is None or ps is None:
+		r.skip('resume-after-block', bp.where, 'BlockParser._parse / _parse_block vanished')
+	else:
+		# how far past the closer does _parse_block return?  `if text[i] == brackets[1]: i += k; break` ... `return i, entries`
+		consumed = None
+		for n in nodes(pb.node, ast.If):
+			t = n.test
+			if isinstance(t, ast.Compare) and isinstance(t.ops[0], ast.Eq) and unparse(t.comparators[0]).endswith('[1]') and any(isinstance(x, ast.Break) for x in n.body):
+				incs = [x for x in n.body if isinstance(x, ast.AugAssign) and isinstance(x.op, ast.Add) and isinstance(x.value, ast.Constant)]
+				consumed = sum(x.value.value for x in incs)
+		psx = split_tuple_assigns(ps.node)
+		site = None
+		for a in nodes(psx, ast.Assign):
+			if isinstance(a.value, ast.Subscript) and isinstance(a.value.value, ast.Call) and unparse(a.value.value.func).endswith('_parse_block') and isinstance(a.value.slice, ast.Constant) and a.value.slice.value == 0 and isinstance(a.targets[0], ast.Name):
+				site = a
+		if consumed is None or site is None:
+			r.skip('resume-after-block', ps.where, '_parse_block no longer consumes the closer in an `if text[i] == brackets[1]: i += 1; break` arm, or _parse no longer takes its first result')
+		else:
+			endv = site.targets[0].id
+			# the loop cursor: the variable of the `while <cursor> < len(text)` loop; its assignment from the block end
+			loops = [lp for lp in nodes(psx, ast.While) if isinstance(lp.test, ast.Compare) and isinstance(lp.test.left, ast.Name)]
+			cursor = loops[0].test.left.id if loops else None
+			resumes = [a for a in nodes(psx, ast.Assign) if isinstance(a.targets[0], ast.Name) and a.targets[0].id == cursor and endv in {x.id for x in ast.walk(a.value) if isinstance(x, ast.Name)}]
+			if not resumes:
+				r.skip('resume-after-block', ps.where, f'no assignment of the cursor from the block end `{endv}` found')
+			for a in resumes:
+				terms, const = linear(a.value)
+				if terms != {endv: 1}:
+					r.skip('resume-after-block', (BLOCK, a.lineno), f'resume position `{unparse(a.value)}` is not the block end plus a constant')
+				else:
+					r.check(consumed + const == 1, 'resume-after-block', (BLOCK, a.lineno), f'_parse_block returns the position {consumed} past the closer and _parse resumes at `{unparse(a.value)}`: the character directly behind a nested block is skipped; when it is the closer of the enclosing block (`((a))`, `f(g(h(x)))`) that block runs on to the next closer, and the pieces of parse_bracket / the groups of parse_to_formatter are unbalanced from the third level on', unparse(a))
+	m = bp.module
+	en = m.cls('Entry')
+	un = en.method('unders') if en else None
+	if un is None:
+		r.skip('unders-all-levels', bp.where, 'Entry.unders vanished')
+	else:
+		recursive = any(isinstance(c_.func, ast.Attribute) and c_.func.attr == 'unders' for c_ in nodes(un.node, ast.Call))
+		worklist = any(isinstance(lp, ast.While) for lp in nodes(un.node, ast.While))
+		r.check(recursive or worklist, 'unders-all-levels', un.where, 'Entry.unders yields the entries and their direct children only (no recursion, no work-list): blocks nested deeper than two levels are missing from parse_bracket and parse_pair', unparse(un.node)[-120:])
